@@ -49,6 +49,7 @@ package limiter
 //@   ensures[C05] nothing_enforced_on_error: ret0 == nil ==> ncalls("core.Strategy.SetLimit") == 0
 //@   establishes[C09] ret0 != nil ==> ret0
 //@   ensures[C01,C02,C09] fields: ret0 != nil ==> ret1 == nil && fresh(ret0) && ret0.limit == limit && ret0.strategy == strategy && ret0.minWindowTime == minWindowTime && ret0.maxWindowTime == maxWindowTime && ret0.minRTTThreshold == minRTTThreshold && ret0.windowSize == windowSize && fresh(ret0.inFlight) && *ret0.inFlight == 0 && ret0.nextUpdateTime == 0 && ret0.sample.sampleCount == 0 && ret0.sample.didDrop == false
+//@   assigns strategy.limit
 
 //@ func (*DefaultLimiter).Acquire
 //@   refines[C02] core.Limiter.Acquire
@@ -139,6 +140,7 @@ package limiter
 //@   ensures[C13] true_only_when_signalled: result <==> callres("select", 0, 0) == 1
 //@   ensures[C13] one_waiter_goroutine: ncalls("go limiter.blockUntilSignaled$1") == 1
 //@   safety[C13]
+//@   assigns nothing
 
 //@ type BlockingLimiter
 //@   immutable: logger, delegate, c, timeout
@@ -153,11 +155,13 @@ package limiter
 //@   requires cfg: delegate != nil
 //@   establishes[C13] result
 //@   ensures[C13,C19] fields: result != nil && result.delegate == delegate && result.timeout == max(0, timeout) && result.c != nil && result.logger != nil
+//@   assigns nothing
 
 //@ func NewDeadlineLimiter
 //@   requires cfg: delegate != nil
 //@   establishes[C13] result
 //@   ensures[C13] fields: result != nil && result.delegate == delegate && result.deadline == deadline && result.c != nil && result.logger != nil
+//@   assigns nothing
 
 //@ func (*BlockingLimiter).tryAcquire
 //@   maintains l
@@ -169,6 +173,7 @@ package limiter
 //@   ensures[C13] refused_only_when_cancelled: !ret1 ==> callresIter("context.Context.Err", 0, 0) != nil
 //@   ensures[C02,C19] grant_is_the_delegates: ret1 ==> (ncallsIter("core.Limiter.Acquire") == 1 && ret0 == callresIter("core.Limiter.Acquire", 0, 0) && callresIter("core.Limiter.Acquire", 0, 1)) || (ncallsIter("core.Limiter.Acquire") == 2 && ret0 == callresIter("core.Limiter.Acquire", 1, 0) && callresIter("core.Limiter.Acquire", 1, 1) && callresIter("core.Limiter.Acquire", 0, 0) == nil)
 //@   ensures[C02] delegate_is_ours: ncallsIter("core.Limiter.Acquire") >= 1 ==> callrecvIter("core.Limiter.Acquire", 0) == l.delegate
+//@   assigns nothing
 
 //@ func (*BlockingLimiter).Acquire
 //@   refines[C02] core.Limiter.Acquire
@@ -187,6 +192,7 @@ package limiter
 //@   ensures[C13] past_deadline_refused: callresIter("context.Context.Err", 0, 0) == nil && callresIter("time.Now", 0, 0) > l.deadline ==> !ok && ncallsIter("core.Limiter.Acquire") == 0
 //@   ensures[C13] refusal_reasons: !ok ==> callresIter("context.Context.Err", 0, 0) != nil || callresIter("time.Now", 0, 0) > l.deadline || (ncallsIter("time.Now") == 2 && l.deadline - callresIter("time.Now", 1, 0) <= 0)
 //@   ensures[C02,C19] grant_is_the_delegates: ok ==> (ncallsIter("core.Limiter.Acquire") == 1 && listener == callresIter("core.Limiter.Acquire", 0, 0)) || (ncallsIter("core.Limiter.Acquire") == 2 && listener == callresIter("core.Limiter.Acquire", 1, 0))
+//@   assigns nothing
 
 //@ func (*DeadlineLimiter).Acquire
 //@   refines[C02] core.Limiter.Acquire
@@ -240,6 +246,7 @@ package limiter
 //@   ensures[C12] length: llen(q.list) == ite(old(lmember(q.list, e)), old(llen(q.list)) - 1, old(llen(q.list)))
 //@   ensures[C12,C17] under_write_lock: calledUnder("(*container/list.List).Remove", 0, q.mu)
 //@   owns[C17]
+//@   assigns listof(q.list)
 
 //@ func (*queue).push
 //@   maintains q
@@ -249,6 +256,7 @@ package limiter
 //@   ensures[C12] evict_closure: isfunc(ret0, "(*limiter.queue).evictionFunc$1") && *captured(ret0, "(*limiter.queue).evictionFunc$1", 0) == q && lmember(q.list, peeked(ret0))
 //@   ensures[C12] evict_removes_it: ref(*captured(ret0, "(*limiter.queue).evictionFunc$1", 1)) == qPushed()
 //@   owns[C17]
+//@   assigns listof(q.list)
 //@ define qPushed() ref = ref(callres("(*container/list.List).PushFront", 0, 0))
 
 //@ define peeked(evict limiter.EvictFunc) ref = ref(*captured(evict, "(*limiter.queue).evictionFunc$1", 1))
@@ -263,6 +271,7 @@ package limiter
 //@   ensures[C11] lifo_most_recent: q.ordering == "lifo" && ret0 != nil ==> (forall o ref :: lmember(q.list, o) ==> lstamp(o) <= lstamp(peeked(ret0)))
 //@   ensures[C12] does_not_remove: llen(q.list) == old(llen(q.list)) && (forall o ref :: lmember(q.list, o) == old(lmember(q.list, o)))
 //@   owns[C17]
+//@   assigns nothing
 
 //@ func (*queueElement).setListener
 //@   ensures[C02,C19] accepted_means_sent: result <==> ncalls("select") == 1 && callres("select", 0, 0) == 0
@@ -281,6 +290,7 @@ package limiter
 //@   ensures[C02] never_completes_otherwise: ncalls("core.Listener.OnSuccess") == 0 && ncalls("core.Listener.OnDropped") == 0
 //@   ensures[C12,C17] serialised: ncalls("core.Limiter.Acquire") == 1 ==> calledUnder("core.Limiter.Acquire", 0, l.limiter.mu)
 //@   owns[C17]
+//@   assigns listof(l.limiter.backlog.list)
 
 //@ func (*QueueBlockingListener).OnSuccess
 //@   requires objs: l.delegateListener != nil && l.limiter != nil && inv(l.limiter)
@@ -304,6 +314,7 @@ package limiter
 //@   ensures[C02,C19] handed_listener_is_returned: ncalls("select") == 1 && callres("select", 0, 0) == 0 ==> result == callres("select", 0, 1)
 //@   ensures[C12,C13] give_up_evicts: ncalls("select") == 1 && callres("select", 0, 0) != 0 ==> result == nil && ncalls("(*limiter.queue).evictionFunc$1") == 1 && callpos("select", 0) < callpos("(*limiter.queue).evictionFunc$1", 0)
 //@   owns[C17]
+//@   assigns listof(l.backlog.list)
 
 //@ func (*QueueBlockingLimiter).Acquire
 //@   refines[C02] core.Limiter.Acquire
@@ -322,6 +333,7 @@ package limiter
 //@   ensures[C13] timeout_default: c.MaxBacklogTimeout == ite(old(c.MaxBacklogTimeout) == 0, 1000000000, old(c.MaxBacklogTimeout))
 //@   ensures[C20] registry_default: c.MetricRegistry != nil && (old(c.MetricRegistry) != nil ==> c.MetricRegistry == old(c.MetricRegistry))
 //@   ensures[C13] evict_flag_kept: c.BacklogEvictDoneCtx == old(c.BacklogEvictDoneCtx)
+//@   assigns c.Ordering, c.MaxBacklogSize, c.MaxBacklogTimeout, c.MetricRegistry, c.Tags
 
 //@ func NewQueueBlockingLimiterFromConfig
 //@   requires cfg: delegate != nil
@@ -333,24 +345,29 @@ package limiter
 //@   ensures[C12] empty_backlog: result.backlog.list != nil && llen(result.backlog.list) == 0 && fresh(result.backlog) && fresh(result)
 //@   ensures[C12,C20] size_gauge_reads_the_backlog: ncalls("core.MetricRegistry.RegisterGauge") == 2 && callarg("core.MetricRegistry.RegisterGauge", 1, 0) == "queue_size" && isfunc(callarg("core.MetricRegistry.RegisterGauge", 1, 1), "core.NewUint64MetricSupplierWrapper$1") && isfunc(*captured(callarg("core.MetricRegistry.RegisterGauge", 1, 1), "core.NewUint64MetricSupplierWrapper$1", 0), "(*limiter.queue).len$bound") && captured(*captured(callarg("core.MetricRegistry.RegisterGauge", 1, 1), "core.NewUint64MetricSupplierWrapper$1", 0), "(*limiter.queue).len$bound", 0) == result.backlog
 //@   ensures[C20] limit_gauge: callarg("core.MetricRegistry.RegisterGauge", 0, 0) == "queue_limit"
+//@   assigns nothing
 
 //@ func NewQueueBlockingLimiterWithDefaults
 //@   requires cfg: delegate != nil
 //@   ensures[C11] lifo_by_default: result != nil && result.backlog != nil && result.backlog.ordering == "lifo" && result.delegate == delegate && result.maxBacklogSize == 100 && result.maxBacklogTimeout == 1000000000
+//@   assigns nothing
 
 //@ func NewFifoBlockingLimiter
 //@   requires cfg: delegate != nil
 //@   ensures[C11] fifo: result != nil && result.QueueBlockingLimiter != nil && result.QueueBlockingLimiter.backlog.ordering == "fifo" && result.QueueBlockingLimiter.delegate == delegate
 //@   ensures[C12,C13] sizes: result.QueueBlockingLimiter.maxBacklogSize == uint64(ite(maxBacklogSize <= 0, 100, maxBacklogSize)) && result.QueueBlockingLimiter.maxBacklogTimeout == ite(maxBacklogTimeout == 0, 1000000000, maxBacklogTimeout)
+//@   assigns nothing
 //@ func NewFifoBlockingLimiterWithDefaults
 //@   requires cfg: delegate != nil
 //@   ensures[C11] fifo: result != nil && result.QueueBlockingLimiter != nil && result.QueueBlockingLimiter.backlog.ordering == "fifo" && result.QueueBlockingLimiter.delegate == delegate
 //@ func NewLifoBlockingLimiter
 //@   requires cfg: delegate != nil
 //@   ensures[C11] lifo: result != nil && result.QueueBlockingLimiter != nil && result.QueueBlockingLimiter.backlog.ordering == "lifo" && result.QueueBlockingLimiter.delegate == delegate
+//@   assigns nothing
 //@ func NewLifoBlockingLimiterWithDefaults
 //@   requires cfg: delegate != nil
 //@   ensures[C11] lifo: result != nil && result.QueueBlockingLimiter != nil && result.QueueBlockingLimiter.backlog.ordering == "lifo" && result.QueueBlockingLimiter.delegate == delegate
+//@   assigns nothing
 
 // ---------------------------------------------------------------------------------------------
 // Default-configuration constructors.
@@ -360,9 +377,11 @@ package limiter
 //@   ensures[C05,C14] built: ret0 != nil && ret1 == nil && ret0.strategy == strategy
 //@   ensures[C05,C14] vegas_by_default: dyntype(ret0.limit, "*limit.VegasLimit")
 //@   ensures[C05,C14] new_object: fresh(ret0)
+//@   assigns strategy.limit
 
 //@ func NewDelegateListener
 //@   ensures[C02] wraps: result != nil && fresh(result) && result.delegateListener == delegateListener
+//@   assigns nothing
 
 // pop is used by tests only; its effect is peek's eviction closure (contracts above).
 //@ func (*queue).pop
